@@ -1,10 +1,9 @@
 SPECIFICATION Spec
 CONSTANTS
-    AcceptLoopSurvives = TRUE
-    EnvSet <- Envs
+    AcceptLoopSurvives = FALSE
+    EnvSet <- SmallEnvs
     ProxySyntaxSilent = FALSE
     MaxConns = 2
     MaxEnv = 3
 INVARIANTS ErrorIsLast DoneClosesList EachMethodAnswered RunsOnlyIfLaunched ListensWhileRunning
-PROPERTIES HardStops GracefulStops NoSpontaneousExit
 CHECK_DEADLOCK FALSE
